@@ -641,6 +641,8 @@ def _with_optional_kwargs(
 @hide_trace
 def _parse_kwargs(kwargs: GuppyKwargs) -> UnitaryFlags:
     """Parses the kwargs dict specified in the `@guppy` decorator."""
+    # Work on a copy: the dict is shared by every application of one decorator object
+    kwargs = kwargs.copy()
     flags = UnitaryFlags.NoFlags
     if kwargs.pop("unitary", False):
         flags |= UnitaryFlags.Unitary
